@@ -204,8 +204,12 @@ def h_cli(ctx, n, form):
     seqn = symx.sym_digits(ctx, "seqn", 3) if form.endswith("+seq") else None
     verb = symx.choice(ctx, "verb", ["RQ", " I", " W", "RP"])
     form0 = form.split("+")[0]
+    alt = None
     if form0 == "1":
-        cli_addrs, want = [a], ([non, non, a] if verb == " I" else [hgi, a, non])
+        # a lone address: the property does not say which slots it fills - the code has two conventions (the
+        # gateway as source, or the announcement shape for an I; the latter branch tests verb == ' I' after
+        # split() has stripped the blank, so it is never taken): either is accepted, the address must be kept
+        cli_addrs, want, alt = [a], [hgi, a, non], [non, non, a]
     elif form0 == "2same":
         cli_addrs, want = [a, a], [a, non, a]
     elif form0 == "2":
@@ -215,13 +219,23 @@ def h_cli(ctx, n, form):
         cli_addrs, want = [a, non, c] if form0 == "3ac" else [non, non, c], None
         want = list(cli_addrs)
     pad = "  " if symx.flag(ctx, "wide") else " "
-    cli = verb + pad + (seqn + " " if seqn else "") + pad.join(cli_addrs) + pad + code + " " + payload
+    addr_txt = cli_addrs[0]
+    for x in cli_addrs[1:]:  # (not pad.join(): the built-in join would flatten the symbolic cells)
+        addr_txt = addr_txt + pad + x
+    cli = verb + pad + (seqn + " " if seqn else "") + addr_txt + pad + code + " " + payload
     try:
         cmd = Command.from_cli(cli)
     except (exc.CommandInvalid, exc.PacketInvalid):
         return "rejected"
-    long_form = verb + " " + (seqn or "---") + " " + " ".join(want) + " " + code + " " + f"{n:03d}" + " " + payload
-    ctx.check(len(str(cmd)) == len(long_form) and sx_eq(str(cmd), long_form), "C02:cli:short-form-equals-long-form")
+    long_form = verb + " " + (seqn or "---") + " " + want[0] + " " + want[1] + " " + want[2] + " " + code + " " + f"{n:03d}" + " " + payload
+    ok = len(str(cmd)) == len(long_form) and sx_eq(str(cmd), long_form)
+    if alt is not None and verb == " I":
+        from symx.values import s_or
+
+        long_alt = verb + " " + (seqn or "---") + " " + alt[0] + " " + alt[1] + " " + alt[2] + " " + code + " " + f"{n:03d}" + " " + payload
+        ok2 = len(str(cmd)) == len(long_alt) and sx_eq(str(cmd), long_alt)
+        ok = (ok or ok2) if isinstance(ok, bool) or isinstance(ok2, bool) and (ok is True or ok2 is True) else s_or(ok, ok2)
+    ctx.check(ok, "C02:cli:short-form-equals-long-form")
     return "ok"
 
 
@@ -554,8 +568,9 @@ def replay(item):
         seqn = cex.get("seqn") if form.endswith("+seq") else None
         verb = cex.get("verb", "RQ")
         form0 = form.split("+")[0]
+        alt = None
         if form0 == "1":
-            cli_addrs, want = [a], ([non, non, a] if verb == " I" else [hgi, a, non])
+            cli_addrs, want, alt = [a], [hgi, a, non], ([non, non, a] if verb == " I" else None)
         elif form0 == "2same":
             cli_addrs, want = [a, a], [a, non, a]
         elif form0 == "2":
@@ -571,7 +586,8 @@ def replay(item):
         except (exc.CommandInvalid, exc.PacketInvalid) as e:
             return {"reproduced": False, "observed": f"{desc}: rejected {e}", "signature": None}
         long_form = verb + " " + (seqn or "---") + " " + " ".join(want) + " " + cex["code"] + " " + f"{n:03d}" + " " + cex["p"]
-        if str(cmd) != long_form:
+        long_alt = None if alt is None else verb + " " + (seqn or "---") + " " + " ".join(alt) + " " + cex["code"] + " " + f"{n:03d}" + " " + cex["p"]
+        if str(cmd) not in (long_form, long_alt):
             bad.append(f"prints {str(cmd)!r}, long form is {long_form!r}")
     elif h in ("annot", "log"):
         f = _cfields(cex, prm["n"], 0, False, *((" I", "---") if h == "annot" else ("RP", "sym")))
